@@ -92,7 +92,9 @@ def run_shards(modname, specs, jobs, tmp):
                 json.dump(spec, fp)
             logfp = open(lf, "w")
             p = subprocess.Popen(
-                [sys.executable, "-m", "vmon.worker", modname, sf, of],
+                # "pyopt" shards run the same workload under `python -O` (asserts compiled away): a library must not depend on
+                # the side effects of its assert statements
+                [sys.executable] + (["-O"] if spec.get("pyopt") else []) + ["-m", "vmon.worker", modname, sf, of],
                 cwd=VERIF, env=env, stdout=logfp, stderr=subprocess.STDOUT,
             )
             hard = float(spec.get("timeout_s", 2 * float(spec.get("budget_s", 60)) + 120))
@@ -153,7 +155,7 @@ def main(argv=None):
     if args.replay:
         with open(args.replay) as fp:
             rp = json.load(fp)
-        specs = [{"name": "replay", "replay": rp["case"], "budget_s": 600}]
+        specs = [{"name": "replay", "replay": rp["case"], "budget_s": 600, "pyopt": bool(isinstance(rp["case"], dict) and rp["case"].get("pyopt"))}]
     else:
         specs = mod.shards(args.tier, args.seed)
         for s in specs:
